@@ -24,7 +24,7 @@ func init() {
 		Explain: "Decides on every path of offset_manager.go: the pending position is written only by MarkOffset under offset > pom.offset and by ResetOffset under offset <= pom.offset, each time with metadata and dirty = true (C06.monotone); dirty is cleared only when position and metadata still equal what was committed (C06.keep-dirty); a commit carries pom.offset/pom.metadata of dirty partitions read under the partition lock and the response is matched against the request's own block (C06.commit-what-was-marked); the request identifies the group, member and generation of this manager (C06.identity); " +
 			"Close stops the loop, marks the partitions closed, then flushes in a loop bounded by Offsets.Retry.Max before the forced release (C06.close); NextOffset returns the position if ≥ 0 else the configured initial one (C06.next); only an ErrNoError answer can clear dirty and missing blocks are reported (C06.errors); pom/om state is accessed under its lock (C06.lock, lockset analysis). " +
 			"NOT covered: that a later commit is actually issued (ticker/liveness), coordinator fault classes beyond their code paths.",
-		Rules: []func(*Ctx){c06Monotone, c06KeepDirty, c06Commit, c06Identity, c06Close, c06Remaining, c06Next, c06Errors, c06Lock, c06Version, c06ErrLost, c06Recover},
+		Rules: []func(*Ctx){c06Monotone, c06KeepDirty, c06Commit, c06Identity, c06Close, c06Remaining, c06Next, c06Errors, c06Lock, c06Version, c06ErrLost, c06Recover, c06ManageOnce},
 	})
 }
 
@@ -530,4 +530,34 @@ func c06Recover(c *Ctx) {
 		}
 		c.Check(!bad, rule, fn, "release-on-commit-error", cl, "a failed CommitOffset releases the cached coordinator on every path", "after a failed CommitOffset the cached coordinator can be kept (for some errors): if the shared broker object was closed by the consumer group or the client, every later commit fails with the same local error without the coordinator ever being looked up again — marks made afterwards are never committed, not even by Close", wpath)
 	}
+}
+
+// C06.manage-once: a partition's offset manager is never replaced while it is still registered.
+func c06ManageOnce(c *Ctx) {
+	p := c.P
+	rule := "C06.manage-once"
+	c.Doc(rule, "offsetManager.ManagePartition stores the new partition manager into om.poms[topic][partition] only where that slot was just found empty (lookup == nil for the same key): a manager that is still registered — closed or not — may hold a mark that no commit has carried yet, and only the commit cycle (releasePOMs, once it is clean) may remove it")
+	c.Floor(rule, 1)
+	fn := c.NeedFn(rule, "offsetManager.ManagePartition")
+	if fn == nil {
+		return
+	}
+	n := 0
+	for _, s := range Info(fn).Find(func(it Item) bool {
+		mu, ok := it.In.(*ssa.MapUpdate)
+		return ok && isPtrToNamed(mu.Value.Type(), "partitionOffsetManager")
+	}) {
+		n++
+		mu := s.In.(*ssa.MapUpdate)
+		empty := Cmp{token.EQL, func(v ssa.Value) bool {
+			lk, ok := strip(v).(*ssa.Lookup)
+			return ok && samePath(lk.X, mu.Map) && samePath(lk.Index, mu.Key)
+		}, IsNil()}
+		g, path := WholeFn(fn).Guarded(s, empty)
+		c.Check(g, rule, fn, "slot-empty-before-store", mu, "the new manager is stored only into an empty slot", "ManagePartition can replace a partition manager that is still registered (for instance one that was closed but not yet flushed): its pending mark is dropped from the table and no later commit — not even the final one of Close — carries it", path)
+	}
+	if n == 0 {
+		c.Unresolved(rule, "store of the new partitionOffsetManager in ManagePartition")
+	}
+	_ = p
 }
